@@ -270,9 +270,8 @@ theorem upload_archOK (s : St) (a : Archive) (p : Path) (b : BuildId) (c : Conte
     · rw [hb, upd_same] at hx
       simp only [Option.some.injEq] at hx
       left
-      refine ⟨t0, ht, ?_⟩
+      refine ⟨t0, by rw [hb]; exact ht, ?_⟩
       rw [← hx]
-      simp only at h1
       rw [haud] at h1
       simp only [Option.some.injEq] at h1
       rw [hd, ← h1, hc]
@@ -290,7 +289,7 @@ theorem exec_upload_arch (r : Run) (p : Path) (b : BuildId) :
 
 /-! ### the download phase -/
 
-theorem dlPhase_spec (hB : BInj E) {r : Run} (hG : G E ρ N r) (cfg : Cfg) (depth : Nat) (i : PInfo) (ds : List Pkg)
+theorem dlPhase_spec (hB : BidSound E) {r : Run} (hG : G E ρ N r) (cfg : Cfg) (depth : Nat) (i : PInfo) (ds : List Pkg)
     (b : BuildId) (hw : r.mem.wasRun i.path = none) (hP : Prep i (r.st.loc i.path))
     (hb : b = tb E (eff r.mem.fixed (.mk i ds))) :
     (Inv E ρ (dlPhase E cfg depth i b r).2.st ∧ ArchOK E (dlPhase E cfg depth i b r).2.arch) ∧
@@ -325,7 +324,7 @@ theorem dlPhase_spec (hB : BInj E) {r : Run} (hG : G E ρ N r) (cfg : Cfg) (dept
       · show Prep i ((r.exec E _).st.loc i.path)
         rw [hloc]; exact hP'
       · obtain ⟨t0, ht0, hd0⟩ := hdl ho
-        have hv : value E t0 = value E (eff r.mem.fixed (.mk i ds)) := value_of_tb E hB (by rw [ht0, hb])
+        have hv : value E t0 = value E (eff r.mem.fixed (.mk i ds)) := hB _ _ (by rw [ht0, hb])
         have : ((r.exec E (dlOps E cfg depth i b (r.st.loc i.path) (r.arch b)).1).st.loc i.path).disk = some (value E t0) := by
           rw [hloc]; exact hd0
         rw [← hv]
@@ -447,7 +446,7 @@ theorem checkSrc_spec {r : Run} (hG : G E ρ N r) (i : PInfo) :
     · intro u _ hv; simp [handleChangedBuildId, clearDownloadTried] at hv
     · intro u _ b hb; simp [handleChangedBuildId, clearDownloadTried] at hb
 
-theorem kpkg_mk (hB : BInj E) (hH : Function.Injective E.H) (hNA : NoAlias N) (hV : VidOK ρ N) (cfg : Cfg)
+theorem kpkg_mk (hB : BidSound E) (hH : Function.Injective E.H) (hNA : NoAlias N) (hV : VidOK ρ N) (cfg : Cfg)
     (i : PInfo) (ds : List Pkg) (ih : KList E ρ N cfg ds) : KPkg E ρ N cfg (.mk i ds) := by
   intro depth r hsub hG
   have htN : Pkg.mk i ds ∈ N := hsub _ (self_mem_nodes _)
@@ -530,11 +529,102 @@ theorem kpkg_mk (hB : BInj E) (hH : Function.Injective E.H) (hNA : NoAlias N) (h
 
 /-- **every cook keeps the invariant**: workspaces marked as run hold the result of a local build of the project
 state the builder believes in, the archive stays honest, also when the cook ends in a `BuildError` or restarts -/
-theorem kpkg_all (hB : BInj E) (hH : Function.Injective E.H) (hNA : NoAlias N) (hV : VidOK ρ N) (cfg : Cfg) (t : Pkg) :
+theorem kpkg_all (hB : BidSound E) (hH : Function.Injective E.H) (hNA : NoAlias N) (hV : VidOK ρ N) (cfg : Cfg) (t : Pkg) :
     KPkg E ρ N cfg t :=
   Pkg.rec (motive_1 := fun t => KPkg E ρ N cfg t) (motive_2 := fun ds => KList E ρ N cfg ds)
     (fun i ds ih => kpkg_mk E ρ N hB hH hNA hV cfg i ds ih) (klist_nil E ρ N cfg)
     (fun d ds hd hds => klist_cons E ρ N cfg d ds hd hds) t
+
+/-! ### the restart loop and a whole invocation -/
+
+theorem rounds_spec (hB : BidSound E) (hH : Function.Injective E.H) (hNA : NoAlias N) (hV : VidOK ρ N) (cfg : Cfg)
+    (t : Pkg) (hsub : ∀ u ∈ nodes t, u ∈ N) : ∀ (n : Nat) (r : Run), G E ρ N r →
+    Post E ρ N r t (cookRounds E cfg t n r) ∨
+    (∃ r', cookRounds E cfg t n r = .ok r' ∧ G E ρ N r' ∧ r'.mem.wasRun t.path = some t.info.vid) ∨
+    (∃ r', cookRounds E cfg t n r = .abort r' ∧ Inv E ρ r'.st ∧ ArchOK E r'.arch) ∨
+    (∃ r', cookRounds E cfg t n r = .restart r' ∧ G E ρ N r') := by
+  intro n
+  induction n with
+  | zero =>
+    intro r hG
+    exact Or.inr (Or.inr (Or.inr ⟨r, rfl, hG⟩))
+  | succ n ih =>
+    intro r hG
+    have h := kpkg_all E ρ N hB hH hNA hV cfg t 0 r hsub hG
+    simp only [cookRounds]
+    cases hc : cookPkg E cfg 0 t r with
+    | ok r1 =>
+      rw [hc] at h
+      exact Or.inr (Or.inl ⟨r1, rfl, h.1, h.2.2⟩)
+    | abort r1 =>
+      rw [hc] at h
+      exact Or.inr (Or.inr (Or.inl ⟨r1, rfl, h⟩))
+    | restart r1 =>
+      rw [hc] at h
+      simp only
+      rcases ih r1 h with h' | h' | h' | h'
+      · cases hc2 : cookRounds E cfg t n r1 with
+        | ok r2 => rw [hc2] at h'; exact Or.inr (Or.inl ⟨r2, rfl, h'.1, h'.2.2⟩)
+        | abort r2 => rw [hc2] at h'; exact Or.inr (Or.inr (Or.inl ⟨r2, rfl, h'⟩))
+        | restart r2 => rw [hc2] at h'; exact Or.inr (Or.inr (Or.inr ⟨r2, rfl, h'⟩))
+      · exact Or.inr (Or.inl h')
+      · exact Or.inr (Or.inr (Or.inl h'))
+      · exact Or.inr (Or.inr (Or.inr h'))
+
+theorem G_init (s : St) (a : Archive) (hI : Inv E ρ s) (hA : ArchOK E a) :
+    G E ρ N { st := s, arch := a, mem := Mem.init, log := [] } :=
+  ⟨hI, hA, fun q v h => by simp [Mem.init] at h, fun u _ h => by simp [Mem.init] at h,
+   fun u _ b h => by simp [Mem.init] at h⟩
+
+/-- **soundness of one invocation** for every configuration: the workspace state stays trustworthy and the archive
+honest whatever the outcome; a successful cook leaves in the target's workspace the result of a local build of the
+project state the final Build-Ids describe -/
+theorem cook_spec (hB : BidSound E) (hH : Function.Injective E.H) (cfg : Cfg) (t : Pkg) (hNA : NoAlias (nodes t))
+    (hV : VidOK ρ (nodes t)) (s : St) (a : Archive) (hI : Inv E ρ s) (hA : ArchOK E a) :
+    Inv E ρ (cook E cfg t s a).run.st ∧ ArchOK E (cook E cfg t s a).run.arch ∧
+    ∀ r', cook E cfg t s a = .ok r' → r'.st.disk t.path = some (value E (eff r'.mem.fixed t)) := by
+  have h := rounds_spec E ρ (nodes t) hB hH hNA hV cfg t (fun u hu => hu) (size t + 1) _ (G_init E ρ (nodes t) s a hI hA)
+  unfold cook
+  rcases h with h | ⟨r', hc, hG, hw⟩ | ⟨r', hc, h1, h2⟩ | ⟨r', hc, hG⟩
+  · cases hc : cookRounds E cfg t (size t + 1) { st := s, arch := a, mem := Mem.init, log := [] } with
+    | ok r' =>
+      rw [hc] at h
+      refine ⟨h.1.inv, h.1.arch, ?_⟩
+      intro r'' e
+      cases e
+      exact h.1.ok t (self_mem_nodes t) h.2.2
+    | abort r' => rw [hc] at h; exact ⟨h.1, h.2, fun _ e => by cases e⟩
+    | restart r' => rw [hc] at h; exact ⟨h.inv, h.arch, fun _ e => by cases e⟩
+  · rw [hc]
+    refine ⟨hG.inv, hG.arch, ?_⟩
+    intro r'' e
+    cases e
+    exact hG.ok t (self_mem_nodes t) hw
+  · rw [hc]; exact ⟨h1, h2, fun _ e => by cases e⟩
+  · rw [hc]; exact ⟨hG.inv, hG.arch, fun _ e => by cases e⟩
+
+/-- no prediction is wrong (any more): the believed project state is the real one -/
+def PredOK (F : Path → Bool) (t : Pkg) : Prop :=
+  ∀ u ∈ nodes t, F u.path = true ∨ u.info.pred = none ∨ u.info.pred = some u.info.src
+
+theorem eff_id (F : Path → Bool) (t : Pkg) : PredOK F t → eff F t = t :=
+  Pkg.rec (motive_1 := fun t => PredOK F t → eff F t = t)
+    (motive_2 := fun ds => (∀ d ∈ ds, PredOK F d) → effs F ds = ds)
+    (fun i ds ih h => by
+      have hi := h (.mk i ds) (self_mem_nodes _)
+      have hsrc : (if F i.path = true then i.src else i.pred.getD i.src) = i.src := by
+        simp only [Pkg.path, Pkg.info] at hi
+        rcases hi with h1 | h1 | h1
+        · simp [h1]
+        · simp [h1]
+        · simp [h1]
+      simp only [eff, hsrc]
+      rw [ih (fun d hd u hu => h u (by simp [nodes, mem_nodesL hd u hu]))])
+    (fun _ => rfl)
+    (fun d ds ihd ihds h => by
+      simp only [effs]
+      rw [ihd (h d (by simp)), ihds (fun x hx => h x (by simp [hx]))])
+    t
 
 end
 
